@@ -150,4 +150,190 @@ theorem finish_inv (skip : Bool) (load : S → Option D) (p : P) (pd : Option D)
   · simp only [finish, specElem]
     split <;> simp
 
+/-- one secondary: the invariant moves from `pre | s :: suf` to `pre ++ [s] | suf` and the pair
+of `specOut` is appended -/
+theorem stepSec_inv (skip : Bool) (load : S → Option D) (p : P) (pd : Option D)
+    (pre suf : List S) (s : S) (st : St P S D) (h : Inv load pre (s :: suf) st) :
+    Inv load (pre ++ [s]) suf (stepSec skip p pd st s) ∧
+    (stepSec skip p pd st s).out = st.out ++ (specElem skip load p pd s).toList := by
+  have hlk : st.cache.lookup s = if s ∈ uniq pre then some (load s) else none := by
+    rw [h.cache, lookup_map_pair]; simp [List.mem_filter]
+  by_cases hs : s ∈ uniq pre
+  · rw [if_pos hs] at hlk
+    rw [stepSec_hit skip p pd st s _ h.err hlk]
+    have hU : uniq (pre ++ [s]) = uniq pre := by rw [uniq_snoc, uniqStep, if_pos hs]
+    apply finish_inv
+    · exact h.err
+    · rw [hU]; exact h.req
+    · have := h.ldr
+      rw [G_cons, h.req, uniqStep, if_pos hs, ← h.req] at this; exact this
+    · exact h.lval
+    · exact h.usage
+    · rw [hU]; exact h.cache
+  · rw [if_neg hs] at hlk
+    have hU : uniq (pre ++ [s]) = uniq pre ++ [s] := by rw [uniq_snoc, uniqStep, if_neg hs]
+    have h1 := h.ldr
+    rw [G_cons, h.req, uniqStep, if_neg hs] at h1
+    obtain ⟨t, ht⟩ := G_prefix (uniq pre ++ [s]) suf
+    have h2 : [s] ++ t = st.loader.map (·.1) := by
+      rw [ht, List.append_assoc] at h1
+      exact List.append_cancel_left h1
+    match hl : st.loader with
+    | [] => simp [hl] at h2
+    | (s', d) :: rest =>
+      rw [hl] at h2
+      simp only [List.map_cons, List.cons_append, List.nil_append, List.cons.injEq] at h2
+      obtain ⟨hss, h3⟩ := h2
+      subst hss
+      have hd : d = load s := h.lval (s, d) (by simp [hl])
+      subst hd
+      rw [stepSec_miss skip p pd st s _ rest h.err hlk hl]
+      apply finish_inv
+      · exact h.err
+      · show st.requests ++ [s] = _
+        rw [hU, h.req]
+      · show G (st.requests ++ [s]) suf = st.requests ++ [s] ++ rest.map (·.1)
+        rw [h.req, ht, h3]
+      · intro kv hkv
+        exact h.lval kv (by rw [hl]; exact List.mem_cons_of_mem _ hkv)
+      · exact h.usage
+      · show st.cache ++ [(s, load s)] = _
+        rw [h.cache, hU, List.filter_append, List.map_append]
+        simp
+
+theorem filterMap_cons_toList {α β : Type} (f : α → Option β) (a : α) (l : List α) :
+    (a :: l).filterMap f = (f a).toList ++ l.filterMap f := by
+  rw [List.filterMap_cons]; cases f a <;> rfl
+
+/-- all secondaries of one primary -/
+theorem foldSec_inv (skip : Bool) (load : S → Option D) (p : P) (pd : Option D) (l : List S) :
+    ∀ (pre suf : List S) (st : St P S D), Inv load pre (l ++ suf) st →
+      Inv load (pre ++ l) suf (l.foldl (stepSec skip p pd) st) ∧
+      (l.foldl (stepSec skip p pd) st).out = st.out ++ l.filterMap (specElem skip load p pd) := by
+  induction l with
+  | nil => intro pre suf st h; simpa using h
+  | cons s l ih =>
+    intro pre suf st h
+    obtain ⟨h1, h2⟩ := stepSec_inv skip load p pd pre (l ++ suf) s st h
+    obtain ⟨h3, h4⟩ := ih (pre ++ [s]) suf _ h1
+    rw [List.foldl_cons]
+    refine ⟨?_, ?_⟩
+    · have e : pre ++ s :: l = pre ++ [s] ++ l := by simp
+      rw [e]; exact h3
+    · rw [h4, h2, filterMap_cons_toList, List.append_assoc]
+
+omit [DecidableEq S] in
+theorem flat_nil : flat ([] : List (P × List S)) = [] := rfl
+omit [DecidableEq S] in
+theorem flat_cons (m : P × List S) (ms : List (P × List S)) : flat (m :: ms) = m.2 ++ flat ms := rfl
+omit [DecidableEq S] in
+theorem flat_append (a b : List (P × List S)) : flat (a ++ b) = flat a ++ flat b :=
+  List.flatMap_append
+
+omit [DecidableEq S] in
+/-- `specOut` written with `specElem` -/
+theorem specOut_eq (skip : Bool) (ms : List (P × List S)) (pdata : List (Option D))
+    (load : S → Option D) :
+    specOut skip ms pdata load =
+      (ms.zip pdata).flatMap (fun m => m.1.2.filterMap (specElem skip load m.1.1 m.2)) := rfl
+
+/-- a list of primaries -/
+theorem foldPrim_inv (skip : Bool) (load : S → Option D) (zs : List ((P × List S) × Option D)) :
+    ∀ (pre suf : List S) (st : St P S D), Inv load pre (flat (zs.map (·.1)) ++ suf) st →
+      Inv load (pre ++ flat (zs.map (·.1))) suf (zs.foldl (stepPrim skip) st) ∧
+      (zs.foldl (stepPrim skip) st).out =
+        st.out ++ zs.flatMap (fun m => m.1.2.filterMap (specElem skip load m.1.1 m.2)) := by
+  induction zs with
+  | nil => intro pre suf st h; simpa [flat_nil] using h
+  | cons m zs ih =>
+    intro pre suf st h
+    rw [List.map_cons, flat_cons, List.append_assoc] at h
+    obtain ⟨h1, h2⟩ := foldSec_inv skip load m.1.1 m.2 m.1.2 pre _ st h
+    obtain ⟨h3, h4⟩ := ih (pre ++ m.1.2) suf _ h1
+    rw [List.foldl_cons]
+    refine ⟨?_, ?_⟩
+    · rw [List.map_cons, flat_cons, ← List.append_assoc]; exact h3
+    · show (zs.foldl (stepPrim skip) (m.1.2.foldl (stepSec skip m.1.1 m.2) st)).out = _
+      rw [h4, h2, List.flatMap_cons, List.append_assoc]
+
+theorem initSt_inv (ms : List (P × List S)) (load : S → Option D) :
+    Inv load [] (flat ms) (initSt ms load : St P S D) where
+  err := rfl
+  req := rfl
+  ldr := by
+    show G [] (flat ms) = [] ++ ((uniq (flat ms)).map (fun s => (s, load s))).map (·.1)
+    rw [List.map_map, List.nil_append]
+    show uniq (flat ms) = (uniq (flat ms)).map id
+    simp
+  lval := by
+    intro kv hkv
+    simp only [initSt, List.mem_map] at hkv
+    obtain ⟨x, _, rfl⟩ := hkv
+    rfl
+  usage := fun _ => rfl
+  cache := rfl
+
+/-! ### main theorems -/
+
+/-- general invariant after processing the first `k` matches -/
+theorem align_prefix_inv (skip : Bool) (ms : List (P × List S)) (pdata : List (Option D))
+    (load : S → Option D) (hlen : pdata.length = ms.length) (k : Nat) (hk : k ≤ ms.length) :
+    let st := ((ms.zip pdata).take k).foldl (stepPrim skip) (initSt ms load)
+    let pre := flat (ms.take k)
+    let suf := flat (ms.drop k)
+    st.err = none ∧
+    st.requests = uniq pre ∧
+    st.cache = ((uniq pre).filter (fun x => 0 < suf.count x)).map (fun x => (x, load x)) ∧
+    (∀ x, st.usage x = (suf.count x : Nat)) ∧
+    uniq (flat ms) = st.requests ++ st.loader.map (·.1) ∧
+    (∀ kv ∈ st.loader, kv.2 = load kv.1) ∧
+    st.out = specOut skip (ms.take k) (pdata.take k) load := by
+  have hz : (ms.zip pdata).take k = (ms.take k).zip (pdata.take k) := by
+    simp only [List.zip_eq_zipWith, List.take_zipWith]
+  have hm : ((ms.zip pdata).take k).map (·.1) = ms.take k := by
+    rw [hz]
+    exact List.map_fst_zip (by simp only [List.length_take]; omega)
+  have hflat : flat ms = flat (ms.take k) ++ flat (ms.drop k) := by
+    rw [← flat_append, List.take_append_drop]
+  have h0 := initSt_inv (P := P) ms load
+  rw [hflat, ← hm] at h0
+  obtain ⟨hI, hout⟩ := foldPrim_inv skip load ((ms.zip pdata).take k) [] (flat (ms.drop k))
+    (initSt ms load) h0
+  rw [hm, List.nil_append] at hI
+  have h5 := hI.ldr
+  rw [hI.req, ← uniq_append, ← hflat, ← hI.req] at h5
+  have h7 : (((ms.zip pdata).take k).foldl (stepPrim skip) (initSt ms load)).out =
+      specOut skip (ms.take k) (pdata.take k) load := by
+    rw [hout, specOut_eq, ← hz]
+    exact List.nil_append _
+  exact ⟨hI.err, hI.req, hI.cache, hI.usage, h5, hI.lval, h7⟩
+
+/-- end-to-end specification -/
+theorem align_spec (skip : Bool) (ms : List (P × List S)) (pdata : List (Option D))
+    (load : S → Option D) (hlen : pdata.length = ms.length) (hne : ms ≠ []) :
+    let st := align skip ms pdata load
+    st.err = none ∧ st.out = specOut skip ms pdata load ∧
+    st.requests = uniq (flat ms) ∧ st.cache = [] ∧ st.loader = [] := by
+  have hemp : ms.isEmpty = false := by
+    cases ms with
+    | nil => exact absurd rfl hne
+    | cons _ _ => rfl
+  have hal : align skip ms pdata load = (ms.zip pdata).foldl (stepPrim skip) (initSt ms load) := by
+    simp only [align, hemp]; rfl
+  have hzl : (ms.zip pdata).length = ms.length := by
+    rw [List.length_zip, hlen, Nat.min_self]
+  have h := align_prefix_inv skip ms pdata load hlen ms.length (Nat.le_refl _)
+  simp only [] at h
+  rw [← hzl, List.take_length, hzl, List.take_length, List.drop_length, ← hlen,
+    List.take_length, ← hal] at h
+  obtain ⟨h1, h2, h3, _, h5, _, h7⟩ := h
+  refine ⟨h1, h7, h2, ?_, ?_⟩
+  · rw [h3]; simp [flat_nil]
+  · rw [h2] at h5
+    have : (align skip ms pdata load).loader.map (·.1) = [] := by
+      have := congrArg List.length h5
+      simp only [List.length_append, List.length_map] at this
+      exact List.eq_nil_of_length_eq_zero (by simp only [List.length_map]; omega)
+    exact List.map_eq_nil_iff.1 this
+
 end Align
